@@ -183,12 +183,17 @@ func (w *World) Write(l int) {
 		return
 	}
 	id := w.NextID("")
-	w.guard("Info", func() { w.Loggers[l].Info(id) })
+	w.guard("Info", func() { w.Loggers[l].Info(id, zap.String("id", id)) })
 	w.Written = append(w.Written, id)
 	w.Stats.Inc("mut")
 	if l > 0 {
 		w.Stats.Inc("probe.write-through-derived")
 	}
+}
+
+// FieldOK: an entry written as Info(id, zap.String("id", id)) must still carry exactly that field.
+func FieldOK(msg string, ctx []zapcore.Field) bool {
+	return len(ctx) == 1 && ctx[0].Key == "id" && ctx[0].String == msg
 }
 
 var idRe = regexp.MustCompile(`\bm[a-z]*\d+\b`)
@@ -209,13 +214,21 @@ func (w *World) Check(when string) {
 		want = append(want, w.Written[i])
 	}
 	var got []string
+	badField := ""
 	if w.guard("GetLogs", func() {
 		for _, e := range w.ML.GetLogs() {
 			if e != nil {
 				got = append(got, e.Entry.Message) // copied out immediately: the buffer reuses entry objects
+				if !FieldOK(e.Entry.Message, e.Context) && badField == "" {
+					badField = e.Entry.Message
+				}
 			}
 		}
 	}) {
+		return
+	}
+	if badField != "" {
+		w.Fail("c20.getlogs", when+":entry-carries-foreign-fields", "entry %s is retained with fields that are not the ones it was written with", badField)
 		return
 	}
 	if d := diffSeq(want, got); d != "" {
@@ -226,7 +239,12 @@ func (w *World) Check(when string) {
 	if w.guard("WriteLogs", func() { w.ML.WriteLogs(&buf, logging.IncludeFields) }) {
 		return
 	}
-	ids := idRe.FindAllString(buf.String(), -1)
+	var ids []string
+	for _, line := range strings.Split(buf.String(), "\n") {
+		if m := idRe.FindString(line); m != "" { // one entry per line; the id appears as message and as field
+			ids = append(ids, m)
+		}
+	}
 	if d := diffSeq(want, ids); d != "" {
 		w.Fail("c20.writelogs", when+":"+classify(want, ids), "WriteLogs output: %s", d)
 	}
